@@ -394,6 +394,14 @@ func propForGet(e *env) string {
 // modify sends one ModifyRequest on s and runs the oracles at the following quiescent point.
 func (e *env) modify(s *session, st *Step) {
 	ops := st.ops()
+	// keys named by the invalid operations of this request: a state difference on one of them
+	// after the request means that a rejected operation had an effect (C12)
+	e.invalidKeys = map[Key]string{}
+	for _, op := range ops {
+		if val, en, why := e.model.Analyse(op); val == Invalid && en != nil {
+			e.invalidKeys[en.Key] = describeOp(op) + ": " + why
+		}
+	}
 	for _, op := range ops {
 		if op.ElectionId == nil {
 			op.ElectionId = uint128(s.elec)
@@ -413,6 +421,7 @@ func (e *env) modify(s *session, st *Step) {
 	simrt.AwaitQuiescence("modify")
 	e.drainAndProcess(s)
 	e.afterQuiescence(s)
+	e.invalidKeys = nil
 }
 
 func (e *env) drainAndProcess(s *session) {
